@@ -231,8 +231,44 @@ def replay_call(call):
     return dict(fails=bool(bad), detail='; '.join(bad[:3]) or '%d rebuilt keyword sets agree with dependency-order evaluation' % tried)
 
 
+def replay_apply(call):
+    """Dict.apply: the model says whether the witness key K0 is an item of the mapping and / or a default; the mapping over K0 plus a filler is
+    rebuilt for Dict and a subclass and a function naming both is applied: an item wins over a default of the same name, a default is used
+    where the mapping has no such item, the receiver is unchanged"""
+    from pyg_base import Dict
+
+    class MyDict(Dict):
+        pass
+    bad, tried = [], 0
+    f = lambda K0, filler=None, other='unset': (K0, filler, other)      # noqa
+    for cls in (Dict, MyDict):
+        for in_d, in_def in ((True, True), (True, False), (False, True)):
+            base = dict(filler='vf')
+            if in_d:
+                base['K0'] = 'vK0'
+            defaults = dict(other='dflt')
+            if in_def:
+                defaults['K0'] = 'default_K0'
+            d = cls(base)
+            want = ('vK0' if in_d else 'default_K0', 'vf', 'dflt')
+            txt = '%s(%r).apply(f, **%r)' % (cls.__name__, base, defaults)
+            tried += 1
+            try:
+                r = d.apply(f, **defaults)
+            except Exception as e:      # noqa
+                bad.append('%s raised %r' % (txt, e))
+                continue
+            if r != want:
+                bad.append('%s returned %r, expected f(%s)' % (txt, r, ', '.join(map(repr, want))))
+            if dict(d) != base:
+                bad.append('%s changed the receiver to %r' % (txt, dict(d)))
+    return dict(fails=bool(bad), detail='; '.join(bad[:3]) or '%d rebuilt applications agree' % tried)
+
+
 def replay(call):
     kind = call.get('kind')
+    if kind == 'apply':
+        return replay_apply(call)
     if kind == 'ulist':
         return replay_ulist(call)
     if kind == 'dictattr':
